@@ -81,15 +81,18 @@ CHECKS = {
         design="2/C07"),
     "C06": dict(
         text="Coq theorems over executable mirrors of Frame::parse (Wire.v) and Connection::parse_frame / recv_frame (Conn.v): no "
-             "buffer makes the decoder panic (C06_total), whenever it waits for more bytes fewer than 4 + 65536 are buffered "
-             "(C06_bounded), every delivered/skipped message consumes bytes (C06_progress), a receive error ends the peer task "
-             "(C06_error_terminates). Segmentation independence is decided by the correspondence: the real Connection is fed "
-             "every one of the 2^(n-1) segmentations of short streams (and boundary/random cuts of long ones) over an in-memory "
-             "pipe; after every prefix exactly the messages of that prefix must have been delivered and the buffered remainder "
-             "must be the undecoded rest. Four genuine defects found this way were repaired by fix: commits.",
-        note="Partial: the segmentation-independence theorem (run_conn reads = spec_stream (concat reads)) is not proved in Coq, "
-             "it is tested exhaustively per prefix. Not modelled: how many bytes one read_buf call appends, select! fairness. No axioms.",
-        technique="Coq proof (case analysis over the frame grammar, lia) + exhaustive-segmentation differential correspondence",
+             "buffer makes the decoder panic (C06_total); whenever it waits fewer than 4 + 65536 bytes are buffered (C06_bounded); "
+             "every delivered/skipped message consumes bytes (C06_progress); a receive error ends the peer task "
+             "(C06_error_terminates); prefix stability of Frame::parse for all eleven kinds, unknown ids and errors, from which "
+             "SEGMENTATION INDEPENDENCE: however a stream is cut into reads, the messages delivered, the outcome and the buffered "
+             "remainder are those of the whole stream (C06_segmentation, C06_any_two_cuts_agree, C06_meaning_exists). Tie: the "
+             "real Connection is fed every one of the 2^(n-1) segmentations of short streams (and boundary/random cuts of long "
+             "ones) over an in-memory pipe; after every prefix exactly that prefix's messages must have been delivered. Four "
+             "genuine defects found this way were repaired by fix: commits.",
+        note="The theorem is stated over the decisions of Connection::parse_frame (relation Dec / IncRun); that the executable recv_frame / "
+             "drain loop of Conn.v follows those decisions is by construction and exercised by the correspondence, not a Coq lemma. "
+             "Not modelled: how many bytes one read_buf call appends, select! fairness. No axioms.",
+        technique="Coq proof (prefix-stability lemma + induction over decoding derivations) + exhaustive-segmentation correspondence",
         design="2/C06"),
     "C08": dict(
         text="Coq theorems over the executable mirror of the per-peer task (Handler.v): a handshake with a different info-hash or "
@@ -132,16 +135,20 @@ CHECKS = {
         technique="Coq proof (case analysis of manager and task step functions) + differential correspondence",
         design="2/C11"),
     "C12": dict(
-        text="Coq theorems over the manager model: Have is absorbing for every command (C12_have_absorbing); a piece is assigned "
-             "only if the peer advertised it and the client lacks it (C12_asked_advertised_lacked, via the chooser relation). "
-             "The reservation invariant (Reserved => a connected, non-choking peer has actually been asked; no manager panic "
-             "for producible event sequences) is decided by the correspondence: event histories (repeated / out-of-order events, "
-             "several peers) run one command at a time on the real Session, every state compared with the model applied to "
-             "the previous observed state and the invariant evaluated on the observed state. Three genuine defects found and repaired.",
-        note="Partial: no Coq proof of the reservation invariant over the manager+task composition. Producibility assumptions about "
-             "the connection task (PieceDone only with a piece in assembly, Unchoke relayed only when choked, ...) are mirrored in "
-             "the harness and tied by the handler correspondences. No axioms.",
-        technique="Coq proof (case analysis) + per-step differential correspondence with invariant oracle on the real Session",
+        text="Coq theorems over the manager model: the reservation invariant (a piece is Reserved(n) only with 1 <= n <= the number "
+             "of connected peers that are not choking us and are assigned it) holds in every state reachable by ANY sequence of "
+             "commands the connection tasks can produce, over any number of peers, for every answer of the chooser "
+             "(C12_invariant, C12_invariant_step: counting argument over the peer map, 12 command kinds); hence a piece with no such "
+             "peer left cannot be Reserved (C12_released); Have is absorbing (C12_have_absorbing); only advertised, lacked pieces "
+             "are assigned (C12_asked_advertised_lacked); the task relays an Unchoke only when the peer was choking us "
+             "(C12_task_guarantee, the hypothesis `producible`). Tie: event histories (repeated / out-of-order events, several "
+             "peers) run one command at a time on the real Session; every state compared with the model applied to the "
+             "previous observed state; the stronger 'has actually been asked' form and 'no manager panic' evaluated on the "
+             "observed states with the task's piece tracked by the harness. Three genuine defects found and repaired.",
+        note="Partial: the equality of the task's and the manager's choke flag per peer over all interleavings, and 'no manager panic', "
+             "are not proved in Coq (the latter is tested on producible histories); the KillReq window after a task's death is not "
+             "modelled. No axioms.",
+        technique="Coq proof (invariant by induction over reachable states, counting lemmas) + per-step differential correspondence",
         design="2/C12"),
     "C13": dict(
         text="Coq theorem over the chooser with its shuffle made an argument: for EVERY permutation of the desired pieces the piece "
